@@ -64,10 +64,15 @@ impl IoExtender for VExt {
     }
 }
 
-pub struct VDebug;
+/// debugger stand-in: answers `answer` and records the address it was asked about
+pub struct VDebug {
+    pub answer: bool,
+    pub asked: Option<u16>,
+}
 impl DebugInterface for VDebug {
-    fn check_pc_breakpoint(&mut self, _addr: u16) -> bool {
-        false
+    fn check_pc_breakpoint(&mut self, addr: u16) -> bool {
+        self.asked = Some(addr);
+        self.answer
     }
 }
 
